@@ -73,7 +73,7 @@ def hash_case(rng, kind, tier):
         nbucket = rng.choice([1, 1, 2, 3, 7, max(1, len(names) // 2), len(names) + 1])
         order = list(names)
         symtab, strtab = elfgen.build_symtab(cl, little, order)
-        tab = elfgen.build_sysv_hash(little, order, nbucket)
+        tab = elfgen.build_sysv_hash(little, order, nbucket, rng.choice(["front", "front", "back", "random"]), rng)
         hashfn = elfgen.sysv_hash
         first = 1
     else:
